@@ -309,6 +309,16 @@ def toFMod (d : Design) (m : Module) : R FMod := do
         -- on a `Pair`, the members of an anonymous bundle name the pair's instances
         for (f, _) in fields do
           if !(ms.contains f) then throw s!"{m.name}.{i.name}: the pair has no member {f}"
+      | .bundle bn, .pair ms =>
+        -- … and so do the members of a bundle instance: one the pair does not have would be dropped without notice
+        match m.bundles.find? (fun b => b.1 == bn) with
+        | some b =>
+          let t ← bundleTree d b.2.1
+          for (π, _) in leavesOf t do
+            match π with
+            | f :: _ => if !(ms.contains f) then throw s!"{m.name}.{i.name}: the pair has no member {f} (of bundle {bn})"
+            | [] => pure ()
+        | none => pure ()
       | .anon _, _ =>
         for π in anonPaths cn do
           if !(ports.any (fun x => x.1 == p && π.isPrefixOf x.2.1)) then
